@@ -6,6 +6,8 @@ print("|---|---|---|---|---|")
 for f in sorted(glob.glob("/verif/seeded/*/meta.json")):
     m = json.load(open(f))
     caught = ", ".join(m["caught_by"]) or "**none**"
+    if m.get("note"):
+        caught += " (" + m["note"][:160] + "…)"
     if m.get("obsolete"):
         caught += " (on the tree it was written for; obsolete since: " + m["obsolete"][:110] + "…)"
     held = ", ".join(c for c, r in m["checks_quick_seed0"].items() if r["exit"] == 0) or "–"
